@@ -30,8 +30,8 @@ def vec(items):
     return '[' + ','.join(out) + ']'
 
 
-def build_exec_harness(variant='ts-asan', ts=True, san='asan', heaptrack=False, repo=None):
-    v = build.build_variant(variant, ts=ts, san=san, repo=repo)
+def build_exec_harness(variant='ts-asan', ts=True, san='asan', heaptrack=False, repo=None, compiled_in=False):
+    v = build.build_variant(variant, ts=ts, san=san, repo=repo, compiled_in=compiled_in)
     rec = build.build_shared('librec.so', [os.path.join(NATIVE, 'rec.c')])
     cf = ['-DVERIF_HEAPTRACK'] if heaptrack else []
     h = build.link_harness(v, os.path.join(v['dir'], 'h_exec'),
